@@ -224,6 +224,9 @@ def observe_conv(inst):
         back = w.sky2pix(sky)
         rec["rt_drow_e8"] = fxi(back[0] - row, 1e8)
         rec["rt_dcol_e8"] = fxi(back[1] - col, 1e8)
+        # a catalogue position that many images (configurations) have in common
+        cat = (float(round(h["CRVAL1"])) % 360.0, float(round(h["CRVAL2"])))
+        rec["skyrt_pdeg"] = fxi(_sep(w.pix2sky(w.sky2pix(cat)), cat), 1e12)
         ref = std_sky(std, row, col)
         swapped = std.all_pix2world([[row, col]], 1)[0]
         zero = std.all_pix2world([[col, row]], 0)[0]
@@ -451,7 +454,7 @@ CANNED = [
      "e_a_out": 13888889, "e_b_in": 8333333, "e_b_out": 8333308, "e_bear": 78372733,
      "e_fbear": 78372733, "e_fsep": 13888889, "e_pa_in": 78372733, "e_pa_out": 78372733,
      "e_sep": 13888889, "err": "", "id": "canned-conv", "kind": "conv", "ratio_pm": 600,
-     "rt_dcol_e8": 0, "rt_drow_e8": 0, "scale_mas": 10000, "std_pdeg": 0, "tanrho_pm": 26,
+     "rt_dcol_e8": 0, "rt_drow_e8": 0, "skyrt_pdeg": 0, "scale_mas": 10000, "std_pdeg": 0, "tanrho_pm": 26,
      "v_bear": 78372733, "v_cpa": 2015, "v_curv_ppm": 348, "v_fbear": 78372733,
      "v_fsep": 13888889, "v_pa_in": 78372733, "v_pa_out": 78372733, "v_r_in": 13888889,
      "v_r_out": 13888889, "v_sep": 13888889, "v_spa": 9795, "v_ue": 9794, "v_un": 2017},
